@@ -18,7 +18,9 @@ fresh group, p = the `total_cycles` of the suspended state) completes iff c - p 
      and run outcomes; Stop sends `stopped`; a non-pause outcome is what is sent back.
  m7  the group loop of `resumable_verify_with_signal(limit)`: Ok iff the sum fits into the limit, then exactly the sum; each group gets the limit minus the cost of the groups before it;
  m8  `detailed_run` / `run` / `map_vm_internal_error`: the scheduler runs with LimitCycles(budget); CyclesExceeded -> ExceededMaximumCycles(budget); External("stopped") -> Interrupts;
-     every other VM error passed on; Ok(consumed) iff exit code 0.
+     every other VM error passed on; Ok(consumed) iff exit code 0;
+ m9  the parent side of `chunk_run_with_signal`: how the child is spawned, which command does what (Suspend: interrupt; Stop: interrupt + forward; Resume: free + forward), how the
+     child's result is mapped.
 
 Outside: the VM and the scheduler (spawn/exec/pause syscalls, multi-VM scheduling, snapshots), i.e. that a real script run satisfies the contract; the signal-driven variants.
 """
@@ -749,12 +751,173 @@ def m8_single_run_mapping(S):
 
 OBLIGATIONS = OBLIGATIONS + [m8_single_run_mapping]
 
+
+def m9_signal_parent(S):
+    """the parent side of `chunk_run_with_signal` (async fn body as a coroutine; the `select!` poll is environment: each round either the command channel changed, the child
+    finished, or both branches are disabled): the child task is spawned with a fresh scheduler and the SAME max_cycles, initially resumed; a Suspend command only interrupts the VM,
+    a Stop command interrupts it and is forwarded, a Resume command frees the pause and is forwarded -- nothing else is sent to the child; when the child finishes, exit code 0 gives
+    Ok(the consumed cycles it reported), any other exit code a validation failure with that code, a VM error goes through `map_vm_internal_error` with the same max_cycles"""
+    from mir2smt.exec import CoroV
+    from mir2smt import exec as X
+    from mir2smt.srcinfo import field_index
+    ob = "C05.m9"
+    c = [f for f in S.prog.funcs if f.kind == "fn" and re.search(r"::chunk_run_with_signal::\{closure#0\}$", f.name) and len(f.params) == 2 and "Context" in f.params[1][1]]
+    if len(c) != 1:
+        raise Inconclusive(f"chunk_run_with_signal body: {len(c)} candidates")
+    f = c[0]
+    ix = {}
+    for name, place in f.debug.items():
+        m_ = re.match(r"\(\(\*\(_1\.0: .*?\)\)\.(\d+): ", place)
+        if m_:
+            ix[name] = int(m_.group(1))
+    if not all(k in ix for k in ("self", "script_group", "max_cycles", "signal")):
+        raise Inconclusive(f"upvars: {ix}")
+    cmds = _variants("script/src/types.rs", "ChunkCommand")
+    tr = field_index("script/src/types.rs", "TerminatedResult")
+    X.ENUMS["Out"] = ["_0", "_1", "Disabled"]            # tokio::select! with two branches declares `enum Out<_0, _1> { _0(_0), _1(_1), Disabled }`
+    ROUNDS = 5 if S.tier == "thorough" else 3
+    ctx = S.ctx(unwind=ROUNDS + 2)
+    ctx.uninterpreted_unknown_calls = True
+    mx = ctx.int("max_cycles", "u64")
+    which = [ctx.int(f"select_round_{k}", "u8") for k in range(ROUNDS + 2)]          # 0 command channel changed, 1 child finished, 2 both disabled
+    cmd = [ctx.int(f"command_{k}", "u8") for k in range(ROUNDS + 2)]
+    fin_ok, code, cons = ctx.bool("child_result_is_terminated"), ctx.int("exit_code", "i8"), ctx.int("consumed_cycles", "u64")
+    acts, spawned, initial = [], [], []
+
+    def n_of(ex, tag):
+        return len([e for e in ex.log if e[0] == "c05" and e[1] == tag])
+
+    def act(ex, *a):
+        acts.append(tuple(a) + (n_of(ex, "round"), list(ex.pc)))
+        ex.log.append(("c05", "act", [str(a)], list(ex.pc)))
+    nmx = lambda ex, v: getattr(deref(ex, v) if isinstance(v, RefV) else v, "name", "?")
+
+    def select_poll(ex, c_, a, d):
+        k = n_of(ex, "round")
+        ex.log.append(("c05", "round", [k], list(ex.pc)))
+        if k >= len(which):
+            raise Stop("more rounds than modelled")
+        okunit = mk_result(True, UNIT, OpaqueV("recv_error", "RecvError"), "Result<(), RecvError>")
+        okv = AggV(tuple((code if n == "exit_code" else cons) for n, _ in sorted(tr.items(), key=lambda kv: kv[1])), "TerminatedResult")
+        res = mk_result(fin_ok.t, okv, OpaqueV("vm_error", "VMInternalError"), "Result<TerminatedResult, Error>")
+        fin = mk_result(True, res, OpaqueV("recv_error", "RecvError"), "Result<Result<..>, RecvError>")
+        if ex.decide(T.eq(which[k].t, 0)):
+            out = EnumV(0, ((0, (okunit,)),), "Out")
+        elif ex.decide(T.eq(which[k].t, 1)):
+            out = EnumV(1, ((1, (fin,)),), "Out")
+        else:
+            out = EnumV(2, (), "Out")
+        return EnumV(0, ((0, (out,)),), d)
+
+    def borrow(ex, c_, a, d):
+        k = n_of(ex, "round") - 1
+        for i in range(3):
+            if i == 2 or ex.decide(T.eq(cmd[k].t, i)):
+                return ex.ctx.ref_to(EnumV(i, (), "ChunkCommand"))
+
+    def spawn(ex, c_, a, d):
+        v = a[0]
+        ups = dict(getattr(v, "upvars", ()) or ()) if isinstance(v, CoroV) else None
+        spawned.append((v, list(ex.pc)))
+        return OpaqueV("join_handle", d)
+    ctx.env = list(E.LOGGING_OFF) + [
+        (E.rx(r"TransactionScriptsVerifier::<.*>::create_scheduler$"), lambda ex, c_, a, d: mk_result(ctx.bool("scheduler_created").t, OpaqueV("scheduler_fresh", "Scheduler"), OpaqueV("create_error", "ScriptError"), d)),
+        (E.rx(r"Pause::new$"), lambda ex, c_, a, d: OpaqueV("pause", d)),
+        (E.rx(r"Pause as Clone>::clone$"), lambda ex, c_, a, d: OpaqueV("pause_clone", d)),
+        (E.rx(r"oneshot::channel::<"), lambda ex, c_, a, d: AggV((OpaqueV("finish_tx", "Sender"), OpaqueV("finish_rx", "Receiver")), "(Sender, Receiver)")),
+        (E.rx(r"watch::channel::<"), lambda ex, c_, a, d: (initial.append(a[0]), AggV((OpaqueV("child_tx", "Sender"), OpaqueV("child_rx", "Receiver")), "(Sender, Receiver)"))[1]),
+        (E.rx(r"^tokio::spawn::<|^spawn::<"), spawn),
+        (E.rx(r"^poll_fn::<|future::poll_fn::<"), lambda ex, c_, a, d: OpaqueV("select_future", d)),
+        (E.rx(r" as IntoFuture>::into_future$|Pin::<.*>::new_unchecked$"), lambda ex, c_, a, d: a[0]),
+        (E.rx(r"<PollFn<.*> as Future>::poll$"), select_poll),
+        (E.rx(r"JoinHandle<.*> as Future>::poll$"), lambda ex, c_, a, d: EnumV(0, ((0, (mk_result(True, UNIT, OpaqueV("join_error", "JoinError"), "Result<(), JoinError>"),)),), d)),
+        (E.rx(r"watch::Receiver::<.*>::changed$"), lambda ex, c_, a, d: OpaqueV("changed_future", d)),
+        (E.rx(r"watch::Receiver::<.*>::borrow$"), lambda ex, c_, a, d: OpaqueV("borrowed", d)),
+        (E.rx(r"watch::Ref<.*> as Deref>::deref$"), borrow),
+        (E.rx(r"<ChunkCommand as ToOwned>::to_owned$|<ChunkCommand as Clone>::clone$"), lambda ex, c_, a, d: deref(ex, a[0])),
+        (E.rx(r"Pause::interrupt$"), lambda ex, c_, a, d: (act(ex, "interrupt", nmx(ex, a[0])), UNIT)[1]),
+        (E.rx(r"Pause::free$"), lambda ex, c_, a, d: (act(ex, "free", nmx(ex, a[0])), UNIT)[1]),
+        (E.rx(r"watch::Sender::<.*>::send$"), lambda ex, c_, a, d: (act(ex, "send", nmx(ex, a[0]), a[1].disc if isinstance(a[1], EnumV) else str(a[1])[:30]), mk_result(True, UNIT, OpaqueV("send_error", "SendError"), d))[1]),
+        (E.rx(r"ScriptError::validation_failure$"), lambda ex, c_, a, d: AggV((OpaqueV("validation_failure", "tag"), a[1]), "ValidationFailure")),
+        (E.rx(r"TransactionScriptsVerifier::<.*>::map_vm_internal_error$"), lambda ex, c_, a, d: AggV((OpaqueV("mapped_vm_error", "tag"), OpaqueV(nmx(ex, a[1]), "?"), a[2]), "Mapped")),
+    ]
+    ups = {ix["self"]: ctx.ref_to(OpaqueV("verifier", "TransactionScriptsVerifier")), ix["script_group"]: ctx.ref_to(OpaqueV("group0", "ScriptGroup")), ix["max_cycles"]: mx,
+           ix["signal"]: ctx.ref_to(OpaqueV("signal", "Receiver"))}
+    ps = S.run(ctx, f, [AggV((ctx.ref_to(CoroV(0, tuple(sorted(ups.items())), (), "coroutine")),), "Pin"), ctx.ref_to(OpaqueV("task_context", "Context"))], allow=("return", "panic", "unwind"))
+    dom = [T.le(w.t, 2) for w in which] + [T.le(c_.t, 2) for c_ in cmd]
+    S.prove(ctx, ob, "no_panic", dom, T.not_(cond_of(panics(ps))))
+    # ---- the child task
+    ok_spawn = bool(spawned) and bool(initial) and all(isinstance(v, EnumV) and v.disc == cmds.index("Resume") for v in initial)
+    note = ""
+    for v, pc in spawned:
+        flat = str(v)
+        if not ("scheduler_fresh" in flat and "max_cycles" in flat and "child_rx" in flat and "finish_tx" in flat and "pause_clone" in flat):
+            ok_spawn = False
+            note = flat[:300]
+    S.prove(ctx, ob, "the_child_is_spawned_with_the_fresh_scheduler_the_same_max_cycles_and_starts_resumed", [], ok_spawn, extra={"note": note})
+    # ---- commands
+    goals = []
+    per_round = {}
+    for a in acts:
+        per_round.setdefault((a[-2], tuple(map(str, a[-1]))), []).append(a)
+    for a in acts:
+        kind, rnd, pc = a[0], a[-2], a[-1]
+        k = rnd - 1
+        if kind == "interrupt":
+            goals.append(T.implies(T.and_(*pc), T.and_(bool(a[1] == "pause"), T.or_(T.eq(cmd[k].t, cmds.index("Suspend")), T.eq(cmd[k].t, cmds.index("Stop"))))))
+        elif kind == "free":
+            goals.append(T.implies(T.and_(*pc), T.and_(bool(a[1] == "pause"), T.eq(cmd[k].t, cmds.index("Resume")))))
+        elif kind == "send":
+            goals.append(T.implies(T.and_(*pc), T.and_(bool(a[1] == "child_tx" and a[2] in (cmds.index("Stop"), cmds.index("Resume"))), T.eq(cmd[k].t, a[2]))))
+    S.prove(ctx, ob, "suspend_only_interrupts_stop_interrupts_and_is_forwarded_resume_frees_and_is_forwarded", dom, T.and_(*goals) if goals else False)
+    # every command round acts: Suspend -> interrupt; Stop -> interrupt + send; Resume -> free + send
+    kinds_by_cmd = {}
+    for a in acts:
+        kinds_by_cmd.setdefault(a[0] + (":%s" % a[2] if a[0] == "send" else ""), 0)
+        kinds_by_cmd[a[0] + (":%s" % a[2] if a[0] == "send" else "")] += 1
+    S.prove(ctx, ob, "each_kind_of_action_occurs", [], bool({"interrupt", "free", f"send:{cmds.index('Stop')}", f"send:{cmds.index('Resume')}"} <= set(kinds_by_cmd)), extra={"note": str(kinds_by_cmd)})
+    # ---- the result
+    goals, seen = [], set()
+    for p_ in returns(ps):
+        v = p_.value
+        if not (isinstance(v, EnumV) and v.disc == 0):
+            goals.append(T.not_(p_.cond()))
+            continue
+        r = v.payload(0)[0]
+        if not (isinstance(r, EnumV) and isinstance(r.disc, int)):
+            goals.append(T.not_(p_.cond()))
+            continue
+        nr = len([c_ for c_ in p_.pc])        # unused; the round of the finish is in the path condition
+        if r.disc == 0:
+            seen.add("ok")
+            goals.append(T.implies(p_.cond(), T.and_(fin_ok.t, T.eq(code.t, 0), T.eq(as_int(r.payload(0)[0]), cons.t))))
+        else:
+            e = r.payload(1)[0]
+            if isinstance(e, AggV) and e.ty == "ValidationFailure":
+                seen.add("validation")
+                cterm = as_int(e.fields[1])
+                goals.append(T.implies(p_.cond(), T.or_(T.and_(fin_ok.t, T.ne(code.t, 0), T.eq(cterm, code.t)), T.eq(cterm, 0))))
+            elif isinstance(e, AggV) and e.ty == "Mapped":
+                seen.add("mapped")
+                goals.append(T.implies(p_.cond(), T.and_(T.not_(fin_ok.t), bool(getattr(e.fields[1], "name", None) == "vm_error"), T.eq(as_int(e.fields[2]), mx.t))))
+            elif getattr(e, "name", None) == "create_error":
+                seen.add("create_error")
+                goals.append(T.implies(p_.cond(), T.not_(ctx.bool("scheduler_created").t)))
+            else:
+                goals.append(T.not_(p_.cond()))
+    S.prove(ctx, ob, "the_result_of_the_child_is_mapped_exit_code_zero_to_its_cycles_other_codes_to_validation_failure_vm_errors_with_the_same_max_cycles", dom, T.and_(*goals) if goals else False)
+    S.prove(ctx, ob, "every_kind_of_result_occurs", [], bool({"ok", "validation", "mapped", "create_error"} <= seen), extra={"note": str(sorted(seen))})
+
+
+OBLIGATIONS = OBLIGATIONS + [m9_signal_parent]
+
 ENGINE = "M"
 LEVEL = "other"
 EXPLANATION = ("The transaction-level cycle accounting of ckb-script (verify, resumable_verify, resume_from_state, complete) is executed symbolically from its MIR over three script groups with symbolic "
                "costs, budgets and suspension points; one script-group run is an environment symbol obeying the stated contract (completes iff the remaining cost fits into the budget, else "
                "suspends with the progress made). The solver decides that totals and verdicts do not depend on how the run was chunked. The child task of chunk_run_with_signal is executed as a coroutine body with the command channel and the scheduler as environment.")
-BOUNDS = {"groups": "3 script groups (thorough: 5), any costs / budgets / progress (u64)", "signal_task": "up to 4 command rounds (thorough: 7), any command sequence and run outcomes", "outside": "the CKB-VM and the scheduler (that a real script run satisfies the contract), the tokio select loop of the parent task, spawn/exec"}
+BOUNDS = {"groups": "3 script groups (thorough: 5), any costs / budgets / progress (u64)", "signal_task": "up to 4 command rounds (thorough: 7), any command sequence and run outcomes", "signal_parent": "3 select rounds (thorough: 5), any commands, any child result",
+          "outside": "the CKB-VM and the scheduler (that a real script run satisfies the contract), tokio's select!/channel internals, spawn/exec"}
 ASSUMPTIONS = ["contract of one script-group run: uninterrupted cost c; with budget b from progress p it completes iff c - p <= b reporting (used = c, consumed = c - p), else suspends with a recorded progress p' with p <= p' <= p + b",
                "contract of the scheduler in the signal task: the consumed-cycle counter never decreases and one run consumes at most the limit it was given",
                "the sum of the group costs fits u64"]
@@ -762,7 +925,7 @@ TRUSTED = []
 LEVEL_TEXT = ("Relative to a stated contract of a single script-group run (the VM is not executed), decided on the real MIR: the uninterrupted verification succeeds iff the budget covers the sum of the "
               "group costs and reports that sum; a resumable run suspends at the first group that does not fit, and resuming from any state the code can produce, with any chunk size, reports the same "
               "total when it completes; completing a suspended verification never succeeds beyond the budget; the task that runs the VM under pause/resume commands limits every run to what is left of the budget, "
-              "for any command sequence up to the stated number of rounds. The VM, the scheduler and the tokio select loop of the parent task are outside and not claimed.")
-LEVEL_NOTE = "Partial claim (cycle accounting around the VM, relative to a run contract; 3 groups quick / 5 thorough; signal task 4 / 7 rounds). The VM interpreter, scheduler, syscalls, spawn trees, the parent select loop: outside."
+              "for any command sequence up to the stated number of rounds. The parent task forwards commands and maps the child's result as documented. The VM, the scheduler and tokio's select/channel internals are outside and not claimed.")
+LEVEL_NOTE = "Partial claim (cycle accounting around the VM, relative to a run contract; 3 groups quick / 5 thorough; signal task 4 / 7 rounds). The VM interpreter, scheduler, syscalls, spawn trees, tokio internals: outside."
 TECHNIQUE = "symbolic execution of rustc MIR -> integer-theory SMT (cvc5 + z3), one script-group run as an environment contract"
 DESIGN_REF = "DESIGN.md section 4 (C05)"
